@@ -36,6 +36,7 @@ CHECK_DEADLOCK FALSE
 '''
 
 EMIT_CFG = CONSTS + '''  ParseLen = %(parselen)d
+  SubLen = %(sublen)d
   PartLen = %(partlen)d
 INIT Init
 NEXT Next
@@ -55,7 +56,7 @@ def design_check(ctx, quick):
     elif quick:
         cfg = MC_CFG % dict(parselen=2, lawlen=3, partsyms=QUICK_SYMS, dev="{}")
     else:
-        cfg = MC_CFG % dict(parselen=3, lawlen=4, partsyms=ALL_SYMS, dev="{}")
+        cfg = MC_CFG % dict(parselen=2, lawlen=4, partsyms=ALL_SYMS, dev="{}")
     mc = ctx.model_check("MCJID", cfg, PROPS, workers=4 if quick else 8, timeout=2400)
     r = ctx.tlc("MCJID", MC_CFG % dict(parselen=2, lawlen=1, partsyms="{1, 5}", dev='{"TrailingDotOnce"}'),
                 workers=1, timeout=300, name="MCJIDDev")
@@ -87,9 +88,10 @@ def report(ctx, summ, trace, rejected):
     seen = set()
     for f in summ["mismatches"]:
         k = f["law"] + " / " + f["how"]
-        if k in seen:
+        g = f["law"] + " / " + f["how"].split(".")[0]     # parse.bare, parse.attr ... are reported with parse
+        if g in seen:
             continue
-        seen.add(k)
+        seen.add(g)
         t = f.get("trace") or 0
         rej = [e for e in trs.get(t, []) if t in rejected and e["_line"] == rejected[t]]
         if t and t not in rejected and not f["law"].endswith("(expected)") and f["law"] != "panic":
@@ -120,12 +122,12 @@ def selftest_vectors(ctx, files):
             if pred(v):
                 return v
         raise verif.Undecided("binding self-test: vector not found in " + fn)
-    p = find("parse.ndjson", lambda v: v["s"] == [2, 3, 2, 4, 2])          # A@A/A -> a@a/A
+    p = find("parse.ndjson", lambda v: v["s"] == [2, 3, 2])                # A@A -> a@a
     q = find("parse.ndjson", lambda v: v["s"] == [1, 3, 1])
     n = find("new.ndjson", lambda v: v["l"] == [1] and v["d"] == [1] and v["r"] == [] and v["cls"] == "ok")
     e = find("eq.ndjson", lambda v: v["s1"] == [1, 3, 1] and v["s2"] == [1, 3, 1])
     good = {"parse.ndjson": [p, q], "new.ndjson": [n], "eq.ndjson": [e], "with.ndjson": []}
-    bad = {"parse.ndjson": [dict(p, canon=[1, 3, 1, 4, 1]), dict(q, l=[1, 1])], "new.ndjson": [dict(n, cls="bad")],
+    bad = {"parse.ndjson": [dict(p, canon=[2, 3, 2]), dict(q, l=[1, 1])], "new.ndjson": [dict(n, cls="bad")],
            "eq.ndjson": [dict(e, eq=False)], "with.ndjson": []}
     res = {}
     for name, fs in (("good", good), ("bad", bad)):
@@ -151,6 +153,9 @@ def selftest_traces(ctx, trace, rejected):
     cand = [tr for t, tr in sorted(trs.items()) if t not in rejected and any(e["ev"] == "made" and e["l"] and e["r"] for e in tr)
             and any(e["ev"] == "xml" for e in tr)]
     if not cand:
+        if ctx.violations:      # every such trace is rejected on this tree: nothing left to corrupt
+            ctx.log("binding self-test on traces skipped: no accepted trace to corrupt")
+            return 0
         raise verif.Undecided("binding self-test: no accepted trace of a full address")
     base = [{k: v for k, v in e.items() if k != "_line"} for e in cand[0]]
 
@@ -186,7 +191,7 @@ def run(ctx):
     quick = ctx.tier == "quick"
     mcbg = jc.Background(lambda: design_check(ctx, quick))
     try:
-        files, er = jc.emit(ctx, "EmitJID", EMIT_CFG % dict(parselen=4 if quick or ctx.replay else 5, partlen=2), FILES,
+        files, er = jc.emit(ctx, "EmitJID", EMIT_CFG % dict(parselen=4, sublen=0 if quick or ctx.replay else 5, partlen=2), FILES,
                             timeout=1200)
         nvec = sum(sum(1 for _ in open(files[f])) for f in FILES[:4])
         ctx.log("TLC emitted %d vectors in %.1fs" % (nvec, er.wall))
@@ -194,8 +199,8 @@ def run(ctx):
         if ctx.replay:
             summ = drive(ctx, files, trace, {}, replay_case=json.load(open(ctx.replay))["case"]["case"])
         else:
-            summ = drive(ctx, files, trace, {"JID_CORPUS": "30000" if quick else "200000",
-                                             "JID_TRACE_EVERY": "25" if quick else "60"})
+            summ = drive(ctx, files, trace, {"JID_CORPUS": "30000" if quick else "1000000",
+                                             "JID_TRACE_EVERY": "25" if quick else "40"})
         x = summ["extra"]
         ctx.log("driver: %d cases on the real package (%s), %d addresses returned and checked against the laws, %d findings; %d traces / %d events recorded" % (
             summ["evaluations"], x.get("cases_by_kind"), x.get("addresses_returned", 0), x["finding_total"], summ["traces"], summ["events"]))
@@ -223,7 +228,7 @@ def run(ctx):
         "distinct_nontrivial": summ["distinct"], "findings": x["finding_total"], "finding_kinds": x.get("finding_kinds"),
         "rejected_traces": len(rejected), "binding_selftest_mutants_rejected": nself,
         "valid_addresses_rejected": x.get("ok_class_rejected"), "valid_addresses": x.get("ok_class"),
-        "exhaustive": "every string of length <= %d over 19 representative symbols (+ runs of 1022/1023/1024 letters in each part); all part triples with parts <= 2 over {a,A,@,/,.} and <= 1 over all symbols; replacements of each part of 6 valid bases by every part of length <= 2; Equal on all pairs of 22 valid strings over {a,@,/}" % (4 if quick else 5),
+        "exhaustive": "every string of length <= 4 over 19 representative symbols, <= %d over 10 of them (+ runs of 1022/1023/1024 letters in each part); all part triples with parts <= 2 over {a,A,@,/,.} and <= 1 over all symbols; replacements of each part of 6 valid bases by every part of length <= 2; Equal on all pairs of 22 valid strings over {a,@,/}" % (4 if quick else 5),
         "design_check": "MCJID: API machine (Parse, New, WithLocal/WithDomain/WithResource, Bare, Domain), strict and lenient treatment of unmodelled parts; closure of the reference functions; deviation TrailingDotOnce shown to violate the invariants",
         "rule": "a case is one vector or one corpus string/triple (distinct by content); every address returned without error is checked against all six laws; a trace is the observation record of one case",
         "samples": summ["samples"][:2] + summ["mismatches"][:1],
